@@ -12,7 +12,7 @@ import sys
 from mc import common, ea, alphabet, ir, refsem
 
 MODULE = 'mc.props.c14'
-EXCLUDED_FEATURES = {'abs', 'class_align', 'elem_aligned', 'eos', 'nonconsume'}   # a delimiter that is looked at but not consumed lies outside the region by design
+EXCLUDED_FEATURES = {'abs', 'class_align', 'elem_aligned', 'eos', 'nonconsume', 'rawcb'}   # a delimiter that is looked at but not consumed lies outside the region by design
 
 
 def decl_specs(tier):
